@@ -5,6 +5,8 @@ package kcache
 import (
 	"context"
 
+	"github.com/boz/kcache/nsname"
+
 	"github.com/boz/kcache/filter"
 	"github.com/boz/kcache/zzverif"
 )
@@ -24,8 +26,8 @@ type vFilterEnv struct {
 	cur       filter.Filter // filter most recently handed to Refilter (or the initial one)
 	filters   []filter.Filter
 
-	gotReady bool    // own-delta tracking started
-	replay   []vEnt  // own content reconstructed from S_ready + own events
+	gotReady  bool   // own-delta tracking started
+	replay    []vEnt // own content reconstructed from S_ready + own events
 	skipDelta bool
 }
 
@@ -260,7 +262,19 @@ func vC07(deferred bool) {
 	var prev filter.Filter = symFilter{0}
 	for s := 0; s < steps; s++ {
 		var f filter.Filter
-		switch zzverif.NondetInt("f", 0, 4) {
+		switch zzverif.NondetInt("f", 0, 7) {
+		case 5: // NSName filters over the parent's own keys: nested sets
+			f = filter.NSName()
+		case 6:
+			if len(par) < 1 {
+				zzverif.Assume(false)
+			}
+			f = filter.NSName(nsname.ForObject(par[0].obj))
+		case 7:
+			if len(par) < 2 {
+				zzverif.Assume(false)
+			}
+			f = filter.NSName(nsname.ForObject(par[0].obj), nsname.ForObject(par[1].obj))
 		case 0:
 			f = symFilter{0}
 		case 1:
